@@ -11,9 +11,13 @@ import (
 	"encoding/hex"
 	"fmt"
 	"io"
+	"log"
 	"math/rand"
 	"os"
+	"runtime"
+	"runtime/debug"
 	"strings"
+	"sync"
 
 	"github.com/foxboron/go-uefi/authenticode"
 	"github.com/foxboron/go-uefi/efi/device"
@@ -29,10 +33,24 @@ func init() {
 	families["fuzz"] = runFuzz
 }
 
+// workCounter counts the bytes a call pulls out of the caller-supplied reader: the part of "time proportional to the input
+// size" that does not depend on the machine (an image whose headers make the library read the same range again and again
+// costs work unrelated to its size long before a wall-clock bound notices).
+var workCounter int64
+
+type countingReaderAt struct{ r io.ReaderAt }
+
+func (c countingReaderAt) ReadAt(p []byte, off int64) (int, error) {
+	n, err := c.r.ReadAt(p, off)
+	workCounter += int64(n)
+	return n, err
+}
+
 func record(id any, entry string, n int, f func() error) {
 	callStart(id, entry, M{"len": n})
+	w0 := workCounter
 	o, _ := guard(f)
-	m := M{"sc": id, "ev": "call-end", "entry": entry, "len": n, "outcome": o.Kind, "alloc": o.Alloc, "ms": int(o.Ms)}
+	m := M{"sc": id, "ev": "call-end", "entry": entry, "len": n, "outcome": o.Kind, "alloc": o.Alloc, "ms": int(o.Ms), "read": workCounter - w0}
 	if o.Kind == "panic" {
 		m["panic"] = o.Panic
 	}
@@ -44,7 +62,7 @@ func imageOps(id any, b []byte, cert string) {
 	var p *authenticode.PECOFFBinary
 	record(id, "image.Parse", len(b), func() error {
 		var err error
-		p, err = authenticode.Parse(bytes.NewReader(b))
+		p, err = authenticode.Parse(countingReaderAt{bytes.NewReader(b)})
 		return err
 	})
 	if p == nil {
@@ -257,6 +275,29 @@ func runPeBad(sc M) {
 	for _, o0 := range list(sc, "overrides") {
 		o := o0.(M)
 		f := str(o, "f")
+		if f == "sections.alias" {
+			// N further section headers that all claim the raw data of section 0 (each lies inside the file; together they
+			// claim N times its size).  Whether such an image is refused or hashed as the headers say, the work must stay
+			// proportional to the file.
+			n := int(resolveVal(str(o, "v"), 0, 0, 0))
+			l := peLayout{bits: 64, lfanew: 64, secs: []peSec{{4096, 1}}, trail: 0}
+			for k := 0; k < n; k++ {
+				l.secs = append(l.secs, peSec{0, k + 2})
+			}
+			im := buildPE(l, "c13:alias")
+			st := l.lfanew + 24 + 240
+			for k := 1; k <= n; k++ {
+				put32(im.b, st+40*k+16, 4096)
+				put32(im.b, st+40*k+20, uint32(im.ptrs[0]))
+			}
+			at := &testImage{unsigned: im.b, img: im, layout: l, digest: make([]byte, 32)}
+			if str(sc, "base") == "unsigned64" {
+				b = im.b
+			} else {
+				b = attachSignatures(at, buildSymBlob("spc", "m1", []symSigner{{Sid: "A", SigKey: "k1", SigOver: "attrs_as_encoded", Attrs: "present", CT: "spc", MD: "m1", Order: "canonical"}}, "signer", true, map[string][]byte{"m1": at.digest}))
+			}
+			continue
+		}
 		v := resolveVal(str(o, "v"), len(b), img.soh, certva)
 		switch f {
 		case "truncate":
@@ -416,10 +457,133 @@ func mutateBytes(b []byte, rng *rand.Rand) []byte {
 	return b
 }
 
-// runFuzz: {"entry": e, "mode": "prefix"|"mutate"|"hex"|"text", ...}
+// manyInputs decodes n distinct inputs of one entry point, spread over `par` goroutines that run at the same time (par = 1:
+// one after the other).  Inputs are made on the fly and dropped at once, so what is still allocated after a garbage
+// collection is memory the library kept for itself: it must not grow with the number of inputs seen.
+func manyInputs(id any, entry string, n, par int) {
+	f, ok := varEntries[entry]
+	switch entry {
+	case "image":
+		ok = true
+		f = func(b []byte) error {
+			p, err := authenticode.Parse(bytes.NewReader(b))
+			if err != nil {
+				return err
+			}
+			p.Signatures()
+			p.Hash(crypto.SHA256)
+			p.Verify(certByName("A"))
+			return nil
+		}
+	case "sig":
+		ok = true
+		f = func(b []byte) error {
+			if p, err := pkcs7.ParsePKCS7(b); err == nil {
+				p.Verify(certByName("A"))
+			}
+			if a, err := authenticode.ParseAuthenticode(b); err == nil {
+				a.Verify(certByName("A"), bytes.NewReader(imgBytes("I1")))
+			}
+			return nil
+		}
+	}
+	if !ok {
+		emit(M{"sc": id, "ev": "skip", "why": "unknown entry " + entry})
+		return
+	}
+	seeds := [][]byte{}
+	for k := 0; k < 4; k++ {
+		if s := seedInput(entry, k); s != nil {
+			seeds = append(seeds, s)
+		}
+	}
+	if len(seeds) == 0 {
+		emit(M{"sc": id, "ev": "skip", "why": "no seed input for " + entry})
+		return
+	}
+	total, maxlen := 0, 0
+	for _, s := range seeds {
+		if len(s) > maxlen {
+			maxlen = len(s)
+		}
+	}
+	total = n * maxlen
+	tag := "#many"
+	if par > 1 {
+		tag = "#concurrent"
+	}
+	// the library's diagnostics (one line per unknown node type ...) are not collected for a series this long
+	log.SetOutput(io.Discard)
+	defer log.SetOutput(os.Stderr)
+	var m0, m1 runtime.MemStats
+	runtime.GC()
+	runtime.ReadMemStats(&m0)
+	pre := "var."
+	if entry == "image" || entry == "sig" {
+		pre = ""
+	}
+	callStart(id, pre+entry+tag, M{"len": total})
+	o, _ := guard(func() error {
+		var wg sync.WaitGroup
+		var mu sync.Mutex
+		var first any
+		for g := 0; g < par; g++ {
+			wg.Add(1)
+			go func(g int) {
+				defer wg.Done()
+				defer func() {
+					if r := recover(); r != nil {
+						mu.Lock()
+						if first == nil {
+							first = fmt.Sprint(r) + " @ " + panicSite(debug.Stack())
+						}
+						mu.Unlock()
+					}
+				}()
+				rng := rand.New(rand.NewSource(Seed*31 + int64(g)*7907 + int64(len(entry))))
+				for i := g; i < n; i += par {
+					in := seeds[rng.Intn(len(seeds))]
+					if entry == "guid" && i%2 == 0 {
+						// fresh well-formed GUID text
+						var raw [16]byte
+						rng.Read(raw[:])
+						in = []byte(fmt.Sprintf("%x-%x-%x-%x-%x", raw[0:4], raw[4:6], raw[6:8], raw[8:10], raw[10:16]))
+					} else {
+						for k := 0; k <= rng.Intn(2); k++ {
+							in = mutateBytes(in, rng)
+						}
+					}
+					f(in)
+				}
+			}(g)
+		}
+		wg.Wait()
+		if first != nil {
+			panic(first)
+		}
+		return nil
+	})
+	runtime.GC()
+	runtime.ReadMemStats(&m1)
+	retained := int64(m1.HeapAlloc) - int64(m0.HeapAlloc)
+	if retained < 0 {
+		retained = 0
+	}
+	m := M{"sc": id, "ev": "call-end", "entry": pre + entry + tag, "len": total, "outcome": o.Kind, "alloc": 0, "total_alloc": o.Alloc, "ms": int(o.Ms), "read": 0, "retained": retained, "inputs": n, "goroutines": par}
+	if o.Kind == "panic" {
+		m["panic"] = o.Panic
+	}
+	emit(m)
+}
+
+// runFuzz: {"entry": e, "mode": "prefix"|"mutate"|"hex"|"text"|"many", ...}
 func runFuzz(sc M) {
 	id := sc["sc"]
 	entry := str(sc, "entry")
+	if str(sc, "mode") == "many" {
+		manyInputs(id, entry, num(sc, "n"), num(sc, "par"))
+		return
+	}
 	var in []byte
 	n := num(sc, "n")
 	switch str(sc, "mode") {
